@@ -66,17 +66,43 @@ def r_b64_writer(model, obligation):
 
 @native("C19.reader.align_base64")
 def r_align(model, obligation):
+    """the solver's chunk first; its bytes are only constrained through the ghost count of base64 characters, so when
+    the concrete model does not reproduce, the inputs of the refuted path's class are tried: a delivery shorter than
+    `size` that holds one to three base64 characters"""
+    first = _r_align_one(_b(model.get("chunk")), int(model.get("size", 1)), bool(model.get("at_eof", False)))
+    if first["confirmed"] or "whole_quartets" not in obligation:
+        return first
+    for chunk in (b"Q", b"QU", b"QUJ", b"Q\r\nU"):
+        r = _r_align_one(chunk, 8192, False)
+        if r["confirmed"]:
+            return r
+    return first
+
+
+def _r_align_one(chunk, size, at_eof):
     from aiohttp.multipart import BodyPartReader
 
-    chunk, size, at_eof = _b(model.get("chunk")), int(model.get("size", 1)), bool(model.get("at_eof", False))
     r = BodyPartReader.__new__(BodyPartReader)
     r._at_eof, r._length, r._read_bytes, r._b64_carry = at_eof, None, 0, b""
     try:
         res = r._align_base64_chunk(chunk, size)
     except Exception as e:  # noqa: BLE001
         return {"confirmed": True, "detail": f"_align_base64_chunk({chunk!r}, {size}) raised {e!r}"}
-    ok = res + r._b64_carry == chunk and (res or not chunk)
-    return {"confirmed": not ok, "detail": f"chunk={chunk!r} size={size}: returned {res!r}, carried {r._b64_carry!r}",
+    from aiohttp.multipart import _BASE64_CHARS
+
+    nb64 = lambda b: sum(1 for x in b if x in _BASE64_CHARS)  # noqa: E731
+    cur = chunk if at_eof else chunk[:size]
+    short = (not at_eof) and len(chunk) < size
+    conserved = res + r._b64_carry == chunk
+    progress = bool(res) or not chunk or short
+    quartets = at_eof or nb64(res) % 4 == 0 or (len(chunk) >= size and nb64(cur) < 4)
+    ok = conserved and progress and quartets
+    why = [] if conserved else ["bytes lost or reordered"]
+    why += [] if progress else ["nothing handed back"]
+    why += [] if quartets else [f"{nb64(res)} base64 characters handed back before the end of the part: cut mid-quartet, "
+                                "the chunk does not decode on its own"]
+    return {"confirmed": not ok, "detail": f"chunk={chunk[:40]!r}{'...' if len(chunk) > 40 else ''} (len {len(chunk)}) size={size}: "
+                                            f"returned {len(res)} bytes, carried {len(r._b64_carry)}: {'; '.join(why) or 'as specified'}",
             "input": {"chunk": chunk.hex(), "size": size, "at_eof": at_eof}}
 
 
